@@ -1,10 +1,98 @@
+import BoboVerif.Model.Crypto
 import BoboVerif.Drivers.Util
-/- driver stub for the Crypto model (to be replaced by the real line protocol). -/
+/-
+driver for M-Crypto (`bobodrv crypto`).  Bytes travel as lower-case hex, `-` = empty.
+The cipher and the nonce source are the values RECORDED by the harness around the real
+pycryptodome calls; the model contributes the framing only, and prints what it hands to the
+cipher so that the harness can compare it with what the real class handed to `AES.new` /
+`encrypt_and_digest` / `decrypt_and_verify`.
+
+  cfg <key text, utf8 hex> <nonce_length> <mac_length>
+        -> `ok min=<min_length()> end=<end_bytes()>` | `rejected` (BoboDistributedCryptoError)
+  enc <text, utf8 hex> <drawn nonce> <recorded ciphertext> <recorded tag>
+        -> `draws=<sizes requested> key= nonce= mac_len=<kw|-> pt=<bytes sealed> out=<encrypt result>`
+  dec <message> <ok:<recorded plaintext>|err>        (the cipher's recorded verdict)
+        -> `key= nonce= mac_len= ct= tag= res=<ok:<text, utf8 hex>|err:cipher|err:utf8>`
+  decn <message>                                     (AES.new itself raised: ct/tag never reached the cipher)
+        -> `key= nonce= mac_len= res=err:cipher`
+-/
 namespace Bobo.Drv.Crypto
+open Bobo.Crypto
+
+def hexDigit (n : Nat) : Char := if n < 10 then Char.ofNat (48 + n) else Char.ofNat (87 + n)
+
+def toHex (b : Bytes) : String :=
+  if b.isEmpty then "-" else String.ofList (b.flatMap fun x => [hexDigit (x.toNat / 16), hexDigit (x.toNat % 16)])
+
+def hexVal (c : Char) : Option Nat :=
+  if '0' ≤ c ∧ c ≤ '9' then some (c.toNat - 48)
+  else if 'a' ≤ c ∧ c ≤ 'f' then some (c.toNat - 87)
+  else none
+
+def fromHexChars : List Char → Option Bytes
+  | [] => some []
+  | [_] => none
+  | a :: b :: r =>
+    match hexVal a, hexVal b, fromHexChars r with
+    | some x, some y, some t => some (UInt8.ofNat (x * 16 + y) :: t)
+    | _, _, _ => none
+
+def fromHex (s : String) : Option Bytes :=
+  if s = "-" then some [] else if s = "" then none else fromHexChars s.toList
+
+def fromHexText (s : String) : Option String := (fromHex s).bind decodeUtf8
+
+def kwStr : Option Nat → String
+  | none => "-"
+  | some n => toString n
 
 structure DS where
-  dummy : Unit := ()
+  cfg : Option Cfg := none
 
-def step (d : DS) (_line : String) : DS × String := (d, "unimplemented")
+def step (d : DS) (line : String) : DS × String :=
+  match words line with
+  | ["cfg", k, n, t] =>
+    match fromHexText k, parseNat? n, parseNat? t with
+    | some key, some ν, some τ =>
+      match mkCfg key ν τ with
+      | some c => ({ cfg := some c }, s!"ok min={minLength c} end={toHex endBytes}")
+      | none => ({ cfg := none }, "rejected")
+    | _, _, _ => (d, "bad-op")
+  | ["enc", t, nz, ct, tg] =>
+    match d.cfg, fromHexText t, fromHex nz, fromHex ct, fromHex tg with
+    | some c, some text, some drawn, some ct, some tag =>
+      let cipher : Cipher := { sealFn := fun _ _ _ _ => (ct, tag), openFn := fun _ _ _ _ _ => none }
+      let draw : Draw (List Nat) := fun n s => (drawn, s ++ [n])
+      let r := encrypt cipher c draw [] text
+      let a := sealArgs c (draw c.nonceLen []).1 text
+      (d, s!"draws={",".intercalate (r.2.map toString)} key={toHex a.1} nonce={toHex a.2.1} mac_len={kwStr a.2.2.1} pt={toHex a.2.2.2} out={toHex r.1}")
+    | _, _, _, _, _ => (d, "bad-op")
+  | ["dec", m, res] =>
+    let verdict : Option (Option Bytes) :=
+      if res = "err" then some none
+      else if res.startsWith "ok:" then (fromHex (res.drop 3).toString).map some
+      else none
+    match d.cfg, fromHex m, verdict with
+    | some c, some b, some v =>
+      let cipher : Cipher := { sealFn := fun _ _ _ _ => ([], []), openFn := fun _ _ _ _ _ => v }
+      let sl := slices c.nonceLen c.macLen b
+      let out := match decrypt cipher c b with
+        | .ok t => "ok:" ++ toHex (utf8 t)
+        | .error .cipher => "err:cipher"
+        | .error .utf8 => "err:utf8"
+      (d, s!"key={toHex c.key} nonce={toHex sl.nonce} mac_len={kwStr (decMacKw c)} ct={toHex sl.ct} tag={toHex sl.tag} res={out}")
+    | _, _, _ => (d, "bad-op")
+  | ["decn", m] =>
+    match d.cfg, fromHex m with
+    | some c, some b =>
+      let cipher : Cipher := { sealFn := fun _ _ _ _ => ([], []), openFn := fun _ _ _ _ _ => none }
+      let sl := slices c.nonceLen c.macLen b
+      let out := match decrypt cipher c b with
+        | .ok t => "ok:" ++ toHex (utf8 t)
+        | .error .cipher => "err:cipher"
+        | .error .utf8 => "err:utf8"
+      (d, s!"key={toHex c.key} nonce={toHex sl.nonce} mac_len={kwStr (decMacKw c)} res={out}")
+    | _, _ => (d, "bad-op")
+  | _ => (d, "bad-op")
 
 end Bobo.Drv.Crypto
